@@ -167,20 +167,37 @@ def run(chk):
 
     def check_graph(edges):
         rels = [stix2.v21.Relationship(ids[a], t, ids[b], id='relationship--' + D.U(100 + n), created='2020-01-01T00:00:00Z', modified='2020-01-01T00:00:00Z') for n, (a, b, t) in enumerate(edges)]
+        # the first relationship exists in two more versions (a stored relationship object is one (id, version); navigation reports each stored version once)
+        rels += [rels[0].new_version(description='second version', modified='2020-01-02T00:00:00Z'), rels[0].new_version(description='third version', modified='2020-01-02T00:00:00.000001Z')]
         data = nodes + rels
         store = MemoryStore(data)
         comp = CompositeDataSource(); comp.add_data_source(MemorySource(stix_data=nodes + rels[:1])); comp.add_data_source(MemorySource(stix_data=rels[1:] + rels[:1]))
         env = Environment(store=MemoryStore(data))
-        for sname, src in (('store', store), ('source', store.source), ('composite', comp), ('environment', env)):
+        # front ends with a filter of their own: it applies to every answer, navigation included -- whatever the number of members
+        att = Filter('id', '!=', ids[1])
+        one = CompositeDataSource(); one.add_data_source(MemorySource(stix_data=data)); one.filters.add(att)
+        two = CompositeDataSource(); two.add_data_sources([MemorySource(stix_data=nodes + rels[:2]), MemorySource(stix_data=rels[1:])]); two.filters.add(att)
+        inner = CompositeDataSource(); inner.add_data_source(MemorySource(stix_data=data))
+        parent = CompositeDataSource(); parent.add_data_source(inner); parent.filters.add(att)
+        env_f = Environment(store=MemoryStore(data)); env_f.add_filter(att)
+        fstore = MemoryStore(data); fstore.source.filters.add(att)
+        key2 = lambda r: (r['id'], str(r['modified']))
+        for sname, src, attached in (('store', store, None), ('source', store.source, None), ('composite', comp, None), ('environment', env, None),
+                                     ('composite of one member with an attached filter', one, att), ('composite of two members with an attached filter', two, att),
+                                     ('filtered composite over a single child composite', parent, att), ('environment with an attached filter', env_f, att), ('store whose source has a filter', fstore, att)):
+            passes = (lambda o: True) if attached is None else (lambda o: attached._check_property(o[attached.property]))
             for n, oid in enumerate(ids):
                 for rtype in (None, 'uses'):
                     for so, to in ((False, False), (True, False), (False, True)):
-                        want = sorted(r['id'] for r in rels if (rtype is None or r['relationship_type'] == rtype) and
-                                      ((not to and r['source_ref'] == oid) or (not so and r['target_ref'] == oid)))
-                        got = sorted(r['id'] for r in stix2.utils.deduplicate(src.relationships(oid, relationship_type=rtype, source_only=so, target_only=to)))
+                        wrels = [r for r in rels if (rtype is None or r['relationship_type'] == rtype) and passes(r) and
+                                 ((not to and r['source_ref'] == oid) or (not so and r['target_ref'] == oid))]
+                        want = sorted(key2(r) for r in wrels)
+                        raw = list(src.relationships(oid, relationship_type=rtype, source_only=so, target_only=to))
+                        got = sorted({key2(r) for r in raw})
                         if got != want:
                             return (f'relationships#{sname}', f'edges {edges}: {sname}.relationships({oid}, {rtype}, source_only={so}, target_only={to}) = {got}, scan {want}', {})
-                        wrel = sorted({(r['target_ref'] if r['source_ref'] == oid else r['source_ref']) for r in rels if r['id'] in want} - {oid})
+                        byid_all = {o['id']: o for o in nodes}
+                        wrel = sorted(i for i in ({(r['target_ref'] if r['source_ref'] == oid else r['source_ref']) for r in wrels} - {oid}) if passes(byid_all[i]))
                         grel = sorted({o['id'] for o in src.related_to(nodes[n], relationship_type=rtype, source_only=so, target_only=to)})
                         if grel != wrel:
                             return (f'related_to#{sname}', f'edges {edges}: {sname}.related_to({oid}, {rtype}, source_only={so}, target_only={to}) = {grel}, scan {wrel}', {})
@@ -200,4 +217,4 @@ def run(chk):
                 return (f'relationships#{sname}:both flags', f'{sname}.relationships(source_only=True, target_only=True) did not refuse', {})
             except ValueError: pass
     chk.bounded('navigation: relationship graphs x options x 4 access paths', list(graphs()), check_graph, classify=lambda e: e,
-                bound='4 nodes, 3 of 24 possible typed edges (sampled ' + ('150' if chk.tier == 'thorough' else '30') + ' graphs), type filter x source/target-only x extra filter, via store / source / composite / Environment')
+                bound='4 nodes, 3 of 24 possible typed edges, the first relationship in three versions (sampled ' + ('150' if chk.tier == 'thorough' else '30') + ' graphs), type filter x source/target-only x extra filter, via store / source / composite / Environment and five front ends with a filter of their own (composites of one and two members, nested, environment, store)')
